@@ -187,6 +187,11 @@ def check(ctx):
                   "insertion reactions are queued without checking that React<C> is present on the entity: if the entity was despawned before the "
                   "deferred insert was applied the component was never inserted, yet insertion reactors run")
     ctx.touch(None, states=E.states)
+    # ---- C14.e a trigger issued by an accessor is not made void behind the accessor's back: the registrations the
+    #      trigger is dispatched to are deleted from their table only when they are really gone (shared with C06.f) ----
+    import core, c06
+    n = core.adopt(ctx, c06, lambda o: o["rule"] == "C06.f", "C14.e")
+    ctx.notes.append("C14.e adopts %d entry-deletion obligations (C06.f)" % n)
 
 
 def set_if_neq(ctx, prog, E, m, label):
